@@ -96,9 +96,20 @@ func (self *Node) MarshalJSON() ([]byte, error) {
 		return bytesNull, nil
 	}
 
-	// fast path for raw node
+	// fast path for raw node: the raw text is read under the node's read lock,
+	// another goroutine may be converting the node to its parsed form
 	if self.isRaw() {
-		return rt.Str2Mem(self.toString()), nil
+		lock := self.rlock()
+		if self.isRaw() {
+			raw := self.toString()
+			if lock {
+				self.runlock()
+			}
+			return rt.Str2Mem(raw), nil
+		}
+		if lock {
+			self.runlock()
+		}
 	}
 
 	buf := newBuffer()
